@@ -140,7 +140,7 @@ Full statement: *`finalize_pruned(env)` = `finalize_unpruned`, execution on the 
 tracker, removal of the case branches the tracker did not see, re-inference, `Value::prune` of the
 witness values — returns a program satisfying the invariant or an error, and never panics.*
 Proved below for **every** set of removed branches and nodes (`Cut`), hence for the one an execution
-determines.  Not modelled (so `_partial`): the execution itself — that the Bit Machine does not
+determines, and for both inference passes of `prune_with_tracker` (`leak`, see `Routes.lean`).  Not modelled (so `_partial`): the execution itself — that the Bit Machine does not
 panic on the unpruned program is C05's theorem under the hypothesis `WT`, which is exactly the
 invariant `finalize_unpruned_ok_or_error` establishes, but the link plan → `BM4.Term` (`elabNode`)
 is driver glue, not a theorem; which branches are removed is taken from the real run. -/
@@ -185,9 +185,9 @@ theorem finalize_pruned_ok_or_error_partial (jt : JetTypes) (leak : Bool) (p : P
   | fuel => rw [hu] at h; cases h
   | panic => rw [hu] at h; cases h
 
-/-- **The `.expect(..)`s of pruning never fire**: re-inference of the pruned program cannot fail
-("pruned types should check out if unpruned types check out") and every remaining value can be
-pruned to its new type ("pruned type should be shrunken version of unpruned type"), whatever the
+/-- **The `.expect(..)`s of pruning never fire**: neither inference pass (`leak = true`: `Pruner`,
+`leak = false`: `Retyper`) can fail ("pruned types should check out if unpruned types check out")
+and every remaining value can be pruned to its new type ("pruned type should be shrunken version of unpruned type"), whatever the
 candidates were and whatever is cut. -/
 theorem finalize_pruned_never_panics_partial (jt : JetTypes) (leak : Bool) (p : Plan) (program : Bool)
     (cand : Nat → Option Val) (c : Cut) : routeP jt leak p program cand c ≠ .panic := by
@@ -257,15 +257,19 @@ values* — `RedeemNode::decode` infers the **principal** types of the pruned pr
 witness stream with them.  `ownSerialisationDecodes` says exactly that in the model (principal
 types = `inferCut` without the constraints of removed nodes).
 
-* With principal re-inference (`leak = false`) it holds for every plan, candidates and cut.
-* For the code as it is (`leak = true`: `prune_with_tracker` builds the branches it is about to
-  hide in the same inference context as the rest) it is **false**: when a witness node is used both
-  in a removed branch and in the remaining program, the removed branch's constraints keep the
-  node's type larger than the pruned program's principal type; the value is pruned to that larger
-  type and the stream is longer than the decoder reads.  Counterexample below, replayed on the
-  real code (harness class `pruned-witness-type-not-principal`). -/
+* With re-inference in a context of its own (`leak = false`, the code as it is: `Routes.codeLeaks`)
+  it holds for every plan, candidates and cut.  `_partial` only because "the decoder's types are
+  the principal types of the pruned program" is tied by the correspondence of route D on every
+  pruned program's own serialisation (node order and variable numbering differ), not proved.
+* With the types of the first pass (`leak = true`: the `Pruner` builds the branches it is about to
+  hide in the same inference context as the rest — before the repair these were the result) it is
+  **false**: when a witness node is used both in a removed branch and in the remaining program,
+  the removed branch's constraints keep the node's type larger than the pruned program's principal
+  type; the value is pruned to that larger type and the stream is longer than the decoder reads.
+  Counterexample below; on the tree before the repair the real code returned exactly this program
+  (harness class `pruned-witness-type-not-principal`, kept as a fixed case). -/
 
-theorem finalize_pruned_serialisation_decodes_if_principal (jt : JetTypes) (p : Plan) (program : Bool)
+theorem finalize_pruned_serialisation_decodes_partial (jt : JetTypes) (p : Plan) (program : Bool)
     (cand : Nat → Option Val) (c : Cut) :
     ownSerialisationDecodes jt p program c (routeP jt false p program cand c) = true := by
   cases h : routeP jt false p program cand c with
@@ -303,9 +307,9 @@ def tgtIs (o : Outcome) (i : Nat) (t : Ty) : Bool :=
   | .ok ar _ => tgtOf ar i == t
   | _ => false
 
-/-- **The code as it is violates the clause**: the pruned program keeps `w : 1 → 2` with the value
-`1`, its principal type is `1 → 1`, and its witness stream `1000 0000` is rejected by the decoder
-(non-zero trailing bits). -/
+/-- **Why the second pass is needed**: with the first pass's types the pruned program keeps
+`w : 1 → 2` with the value `1`, its principal type is `1 → 1`, and its witness stream `1000 0000` is
+rejected by the decoder (non-zero trailing bits). -/
 theorem finalize_pruned_serialisation_counterexample :
     tgtIs (routeP (fun _ => none) true sharedPlan true sharedCand sharedCut) 0 (.sum .one .one) = true ∧
     carries (routeP (fun _ => none) true sharedPlan true sharedCand sharedCut) [(0, .inr .unit)] = true ∧
